@@ -300,25 +300,38 @@ func genC12(g *Gen, tier string, w *bufio.Writer) {
 		}
 	}
 	if thorough {
-		// all |p| = 3 against all |s| <= 1, and a seeded eighth of |p| = 3 x (|s| <= 3 over a reduced subject alphabet)
+		// a seeded half of |p| = 3 x |s| <= 1, and a seeded 48th of |p| = 3 x (|s| <= 3 over a reduced subject alphabet)
+		// (bin/check's chunking is quadratic in the number of lines; the thorough tier is sized to ~1.3M lines)
 		red := c12words([]string{"a", "b", "*", "\n", "é", "%", "\\", "\xff"}, 3)
 		for _, p := range c12words(c12alpha, 3) {
 			if len([]rune(p)) != 3 {
 				continue
 			}
 			for _, s := range c12words(c12alpha, 1) {
-				op("like", c12es(s), c12es(p))
+				if g.Bool() {
+					op("like", c12es(s), c12es(p))
+				}
 			}
 			for _, s := range red {
-				if g.Intn(8) == 0 {
+				if g.Intn(48) == 0 {
 					op("like", c12es(s), c12es(p))
 				}
 			}
 		}
 	}
+	// every ASCII character as a one-symbol pattern against itself and a few probes (a character that is wrongly
+	// escaped becomes a class like \d, \s, \w or an error; one that is wrongly left alone is a metacharacter)
+	for c := 0; c < 128; c++ {
+		ch := string(rune(c))
+		for _, s := range []string{ch, "", "1", " ", "a", "_", "\n", ch + ch, "Z", "x" + ch} {
+			op("like", c12es(s), c12es(ch))
+			op("like", c12es(s), c12es("x"+ch))
+		}
+		op("like", c12es(ch), c12es("\\"+ch))
+	}
 	n := 20000
 	if thorough {
-		n = 400000
+		n = 100000
 	}
 	for i := 0; i < n; i++ {
 		s, p := c12likePair(g)
@@ -340,7 +353,7 @@ func genC12(g *Gen, tier string, w *bufio.Writer) {
 	}
 	n = 10000
 	if thorough {
-		n = 200000
+		n = 80000
 	}
 	for i := 0; i < n; i++ {
 		p := c12regex(g)
@@ -368,7 +381,7 @@ func genC12(g *Gen, tier string, w *bufio.Writer) {
 	mixed := append(append([]string{}, c12alpha...), c12nasty...)
 	n = 6000
 	if thorough {
-		n = 150000
+		n = 60000
 	}
 	for i := 0; i < n; i++ {
 		s := c12rand(g, mixed, 0, 8)
@@ -415,7 +428,7 @@ func genC12(g *Gen, tier string, w *bufio.Writer) {
 	}
 	n = 3000
 	if thorough {
-		n = 60000
+		n = 20000
 	}
 	for i := 0; i < n; i++ {
 		s := c12rand(g, mixed, 0, 8)
@@ -454,7 +467,7 @@ func genC12(g *Gen, tier string, w *bufio.Writer) {
 	}
 	n = 5000
 	if thorough {
-		n = 100000
+		n = 40000
 	}
 	for i := 0; i < n; i++ {
 		al := mixed
